@@ -33,7 +33,7 @@ def wTag : W → String
   | .u8 => "u8" | .u16 => "u16" | .u32 => "u32" | .u64 => "u64" | .big => "big"
 
 /-- PV literals of the line protocol: `i:-3  b:1  f:3/4  f:nan  u:u64:7  a:u8:1,2,3  ba:1,0  s:radius  none  dt:u8  dt:object` -/
-def parsePV (t : String) : Option PV :=
+def parsePV0 (t : String) : Option PV :=
   match t.splitOn ":" with
   | ["none"] => some .pynone
   | ["i", v] => v.toInt?.map PV.int
@@ -48,6 +48,12 @@ def parsePV (t : String) : Option PV :=
   | ["dt", w] => (wOfName w).map (fun x => PV.dtype (some x))
   | _ => none
 
+/-- objects cross the protocol as `o|Class|attr|attr|attr` (attributes are never objects themselves) -/
+def parsePV (t : String) : Option PV :=
+  match t.splitOn "|" with
+  | ["o", cls, a, b, c] => do pure (PV.obj cls (← parsePV0 a) (← parsePV0 b) (← parsePV0 c))
+  | _ => parsePV0 t
+
 def showPV : PV → String
   | .int i => s!"i:{i}"
   | .bool b => if b then "b:1" else "b:0"
@@ -61,6 +67,7 @@ def showPV : PV → String
   | .dtype (some w) => s!"dt:{wTag w}"
   | .pynone => "none"
   | .err e => s!"err:{e}"
+  | .obj c x y z => s!"o|{c}|{showPV x}|{showPV y}|{showPV z}"
 
 def showErr : Option Err → String
   | none => "ok"
